@@ -141,7 +141,8 @@ theorem parsesTo_of_run (doc : Bytes) (v : JV) (b0 : UInt8) (t : Bytes) (hdoc : 
     · rfl
   have hentry : (St.entry ({} : Cfg) ({} : St)) = {} := rfl
   have hr' : runBytes refTables {} {} {} { ({} : Pos) with off := 0 } doc = .ok (st, f, p) := hr
-  simp [run, call, hbom, hentry, runChunks, hr', ho]
+  rw [run, call_ref]
+  simp [callWith, hbom, hentry, runChunks, hr', ho]
 
 /-! ## the quoted form -/
 
